@@ -208,18 +208,25 @@ class InRamPolicySupporter(policy_supporter.PolicySupporter):
         dtype=np.float32,
     )
 
+    # Trials without objective values (infeasible or not completed) have NaN
+    # labels and are never among the best.
+    labels = converter.to_labels(warped_trials)
+    has_labels = ~np.isnan(labels).any(axis=1)
+    candidates = np.asarray(self.trials)[has_labels]
+    labels = labels[has_labels]
+
     if self.study_config.is_single_objective:
+      labels = labels[:, 0]
+      if count is None:
+        # All tied top trials.
+        return list(candidates[labels == np.max(labels, initial=-np.inf)])
       # Single metric: Sort and take top N.
-      count = count or 1  # Defaults to 1.
-      labels = converter.to_labels(warped_trials).squeeze()
       sorted_idx = np.argsort(-labels)  # np.argsort sorts in ascending order.
-      return list(np.asarray(self.trials)[sorted_idx[:count]])
+      return list(candidates[sorted_idx[:count]])
     else:
       algorithm = multimetric.FastParetoOptimalAlgorithm()
-      is_optimal = algorithm.is_pareto_optimal(
-          points=converter.to_labels(warped_trials)
-      )
-      return list(np.asarray(self.trials)[is_optimal][:count])
+      is_optimal = algorithm.is_pareto_optimal(points=labels)
+      return list(candidates[is_optimal][:count])
 
   def SetPriorStudy(
       self, study: vz.ProblemAndTrials, study_guid: Optional[str] = None
